@@ -102,6 +102,10 @@ var catalogue = map[string][]rungraph.Node{
 	"fork-to-cycle":  {{Reqs: [][]int{{1, 2}}}, {Reqs: [][]int{{2}}}, {Reqs: [][]int{{1}}}},
 	"diamond":        {{Reqs: [][]int{{1, 2}}}, {Reqs: [][]int{{3}}}, {Reqs: [][]int{{3}}}, {}},
 	"fan":            {{Reqs: [][]int{{1, 2, 3}}}, {}, {}, {}},
+	// acyclic; a target (1) walks the wait list of its dependency (3) while that one finishes and a third
+	// target (2), which depends on the walker, publishes its own list: stale or recycled wait lists
+	// must not let the walker see itself
+	"walk-while-finishing": {{Reqs: [][]int{{1, 2}}}, {Reqs: [][]int{{3}}}, {Reqs: [][]int{{6, 1}}}, {Reqs: [][]int{{4, 5}}}, {}, {}, {}},
 }
 
 func TestC05(t *testing.T) {
@@ -112,7 +116,7 @@ func TestC05(t *testing.T) {
 // with at most two preemptions (step numbers up to the length of the unpreempted run,
 // every choice of the goroutine to switch to).
 func TestC05Exhaustive(t *testing.T) {
-	names := []string{"self-loop", "two-cycle", "three-cycle", "cycle-off-root", "fork-to-cycle", "diamond", "fan"}
+	names := []string{"self-loop", "two-cycle", "three-cycle", "cycle-off-root", "fork-to-cycle", "diamond", "fan", "walk-while-finishing"}
 	maxK := 1
 	if !run.Quick() {
 		maxK = 2
@@ -121,6 +125,7 @@ func TestC05Exhaustive(t *testing.T) {
 		g       string
 		preempt []int
 		choices []int
+		starve  bool
 	}
 	var all []sched
 	for _, name := range names {
@@ -131,11 +136,13 @@ func TestC05Exhaustive(t *testing.T) {
 		all = append(all, sched{g: name})
 		for s1 := 1; s1 <= steps; s1++ {
 			for c1 := 0; c1 < 3; c1++ {
-				all = append(all, sched{name, []int{s1}, []int{c1}})
+				// the goroutine preempted at s1 stalls until nothing else can run
+				all = append(all, sched{g: name, preempt: []int{s1}, choices: []int{c1}, starve: true})
+				all = append(all, sched{g: name, preempt: []int{s1}, choices: []int{c1}})
 				if maxK >= 2 {
 					for s2 := s1 + 1; s2 <= steps+2; s2 += 1 {
 						for c2 := 0; c2 < 2; c2++ {
-							all = append(all, sched{name, []int{s1, s2}, []int{c1, c2}})
+							all = append(all, sched{g: name, preempt: []int{s1, s2}, choices: []int{c1, c2}})
 						}
 					}
 				}
@@ -153,7 +160,11 @@ func TestC05Exhaustive(t *testing.T) {
 				continue
 			}
 			s := all[i]
-			return rungraph.Case{Nodes: catalogue[s.g], Root: 0, Pol: cosched.Policy{Mode: "preempt", Preempt: s.preempt, Choices: s.choices}}, true
+			mode := "preempt"
+			if s.starve {
+				mode = "starve"
+			}
+			return rungraph.Case{Nodes: catalogue[s.g], Root: 0, Pol: cosched.Policy{Mode: mode, Preempt: s.preempt, Choices: s.choices}}, true
 		}
 	}, exec)
 	run.Extra("exhaustive_catalogue_schedules", len(all))
